@@ -857,6 +857,14 @@ fn run_case_inner(line: &str) -> Option<String> {
             let f = mk_frame(parse_u16(a)?, parse_u8(ty)?, parse_hex(d)?)?;
             crate::iomock::io_write(&f, crate::iomock::parse_wevs(evs)?)
         }
+        ["serialmtc", rest @ ..] => {
+            let g: Vec<&[&str]> = rest.split(|t| *t == "|").collect();
+            if g.len() != 3 {
+                return None;
+            }
+            let msgs: Vec<Message<'static>> = g[0].iter().map(|t| parse_msg(t)).collect::<Option<_>>()?;
+            crate::iomock::serial_multi_case_churn(&msgs, crate::iomock::parse_revs(g[1])?, crate::iomock::parse_wevs(g[2])?)?
+        }
         ["serialmtu", rest @ ..] => {
             let g: Vec<&[&str]> = rest.split(|t| *t == "|").collect();
             if g.len() != 3 {
